@@ -432,6 +432,28 @@ func checkC04(P *Program, r *Result, tier string) {
 					}
 				}
 			}
+			// ... and no way out of the function after the read skips the test altogether (bytes that satisfy the request
+			// may arrive together with the error that ends the stream)
+			if stored && ev != nil {
+				_, neq := nilTests(ev)
+				eq, _ := nilTests(ev)
+				isTest := func(in ssa.Instruction) bool {
+					iff, ok := in.(*ssa.If)
+					if !ok {
+						return false
+					}
+					for _, t := range append(append([]*ssa.BinOp{}, neq...), eq...) {
+						if iff.Cond == ssa.Value(t) {
+							return true
+						}
+					}
+					return false
+				}
+				if leak, at := exitsWithout(rc, isTest); leak {
+					stored = false
+					_ = at
+				}
+			}
 			r.add("STICKY", shortName(fn), "call", "an error of the source is stored in r.err before returning", P.pos(instrPos(rc)), stored, "")
 			// PROGRESS: a give-up counter of the read loop is restarted whenever the source delivered bytes
 			// (otherwise a stream that keeps making progress but inserts empty reads is cut off)
